@@ -250,6 +250,10 @@ def oracle_c02(cfg, obs):
     for view in views(cfg):
         name, url, resources, mws, ep, rn = view
         o = obs[name]
+        if o['outcome'][0] == 'exc' and o['outcome'][1] in ('TypeError', 'NameError', 'UnboundLocalError') and \
+                any(s in (o.get('detail') or '') for s in FRAMEWORK_CALL_ERRORS):
+            return ('%s route: a function could not be called with the values of its sources at all: %s' % (name, o['detail']),
+                    'call-failed')
         if not o['repeat_same']:
             return ('two identical requests to the %s route were served differently' % name, 'request-state-leak')
         provider = {}
